@@ -430,6 +430,7 @@ const maxFactWidth = 5
 var softRestrict bool
 var joinDebug, joinDumped bool
 var joinDebug2 string
+var elimDebug string
 var proveBudget int
 var joinCalls, joinPool, joinMaxPool, proveCalls int
 
@@ -702,12 +703,20 @@ func (s *lstate) eliminate(at *atomTable, drop map[atomID]bool) *lstate {
 				continue
 			}
 			if _, ok := idxKeys[f.l.scale(-1).key()]; ok {
-				// c*a + r >= 0 and its negation: a = -r/c
+				// c*a + r >= 0 and its negation: a = -r/c; the shortest definition is used
 				r := f.l.subst(a, lin{})
 				rr := r.scale(-c)
-				eqR = &rr
-				break
+				if eqR == nil || len(rr.t) < len(eqR.t) || (len(rr.t) == len(eqR.t) && rr.key() < eqR.key()) {
+					eqR = &rr
+				}
 			}
+		}
+		if elimDebug != "" && strings.Contains(at.name[a], elimDebug) {
+			fmt.Printf("ELIM %s: withA=%d eq=%v", at.name[a], len(withA), eqR != nil)
+			if eqR != nil {
+				fmt.Printf(" := %s", at.show(*eqR))
+			}
+			fmt.Println()
 		}
 		if eqR != nil {
 			for _, f := range withA {
